@@ -1,8 +1,10 @@
 import Driver.Cast
+import Driver.Page
 
 def dispatch (line : String) : String :=
   match (line.trimAscii.toString.splitOn " ").filter (· ≠ "") with
   | "cast" :: rest => Driver.Cast.handle rest
+  | "page" :: rest => Driver.Page.handle rest
   | _ => "bad-op"
 
 partial def loop (hin hout : IO.FS.Stream) : IO Unit := do
